@@ -250,7 +250,14 @@ class MemoryFileSystem(FileSystem):
     self._prefix = prefix
 
   def _internal_path(self, path: Union[str, os.PathLike[str]]) -> str:
-    return '/' + resolve_path(path).lstrip(self._prefix)
+    # NOTE: remove the prefix itself (`str.lstrip` removes a set of characters,
+    # which also eats leading 'm', 'e' and '/' of the first path component).
+    path = resolve_path(path)
+    if path.startswith(self._prefix):
+      path = path[len(self._prefix):]
+    elif path == self._prefix.rstrip('/'):
+      path = ''
+    return '/' + path
 
   def _locate(self, path: Union[str, os.PathLike[str]]) -> Any:
     current = self._root
